@@ -476,15 +476,16 @@ func isSelOfCall(root ast.Node, id *ast.Ident, callFuns map[ast.Expr]bool) bool 
 // typ in package pkgPath happens with base.<mu> held on all paths (Lock
 // executed, no explicit Unlock since), and that the body releases the lock
 // (deferred Unlock, or an Unlock on every path to a normal exit).
-// It returns the number of accesses examined and the count per field (a rule
+// It returns the number of accesses examined, the guarded fields that never
+// change after construction, and the count per field (a rule
 // set that finds no access to one of the fields must not pass vacuously; the
 // total is not compared with a number frozen from today's tree, because
 // moving two accesses into a shared helper legitimately lowers it).
-func GuardTable(c *core.Ctx, rule, pkgPath, typ, mu string, guarded []string) (int, map[string]int) {
+func GuardTable(c *core.Ctx, rule, pkgPath, typ, mu string, guarded []string) (int, map[string]int, map[string]bool) {
 	pk := c.Pkg(pkgPath)
 	if pk == nil {
 		c.Undecidedf(rule, pkgPath, token.NoPos, "package %s not loaded", pkgPath)
-		return 0, nil
+		return 0, nil, nil
 	}
 	info := pk.TypesInfo
 	seenField := map[string]int{}
@@ -925,11 +926,17 @@ func GuardTable(c *core.Ctx, rule, pkgPath, typ, mu string, guarded []string) (i
 			if deferredRelease(lp.Node()) {
 				ok, w = true, nil // `defer p.locked()()`: acquired and registered for release in one statement
 			}
+			if !ok {
+				// a deferred release registered before this Lock on every path runs at exit as well
+				if dom, _ := b.G.Dominated(lp, deferredRelease); dom {
+					ok, w = true, nil
+				}
+			}
 			c.Check(rule+".release", fmt.Sprintf("%s/%s#%d", b.Name, mu, i+1), lp.Node().Pos(), ok,
 				fmt.Sprintf("every path from %s.Lock() to a normal exit releases it (defer Unlock or explicit Unlock)", mu), w...)
 		}
 	}
-	return count, seenField
+	return count, seenField, immutable
 }
 
 // CondOver checks that every value assigned to cond field `cond` of struct typ
